@@ -55,6 +55,7 @@ CASE = st.fixed_dictionaries({
     "existing": st.booleans(), "mode": st.sampled_from(["w", "a"]),
     "writer": st.sampled_from(["tracts_to_csv", "tracts_to_csv", "TractWriter", "TractWriter", "records"]),
     "plus_cols": st.booleans(), "uid": st.sampled_from([None, None, 0, 27]), "calls": st.integers(1, 3),
+    "reopen": st.booleans(),          # TractWriter: close() and open() again between write() calls
 })
 
 
@@ -172,7 +173,10 @@ def oracle(c):
             uid = c["uid"] if c["uid"] is not None else 0
             chunks = [descs[i::c["calls"]] for i in range(c["calls"])]
             total_written = 0
-            for chunk in chunks:
+            for ci, chunk in enumerate(chunks):
+                if ci and c.get("reopen"):
+                    w.close()
+                    w.open()
                 vals = ["x1", "y,2"] if c["plus_cols"] else None
                 objs = chunk if len(chunk) != 1 else chunk[0]
                 n = w.write(objs, plus_cols=vals)
@@ -229,6 +233,8 @@ def classes(c):
     out = [f"writer={c['writer']}", f"headers={c['headers']}", f"mode={c['mode']}", "existing" if c["existing"] else "new"]
     if c["unknown"]:
         out.append("unknown_attribute")
+    if c.get("reopen") and c["writer"] == "TractWriter" and c["calls"] > 1:
+        out.append("reopened")
     if _last.get("nt"):
         out.append("nontrivial")
     return out
@@ -253,7 +259,7 @@ def enum_attrs(tier):
 
 
 def render(c):
-    return {k: c[k] for k in ("texts", "attrs", "unknown", "headers", "existing", "mode", "writer", "plus_cols", "uid", "calls")}
+    return {k: c.get(k) for k in ("texts", "attrs", "unknown", "headers", "existing", "mode", "writer", "plus_cols", "uid", "calls", "reopen")}
 
 
 SUBS = [
@@ -261,5 +267,5 @@ SUBS = [
         shards={"quick": 6, "thorough": 8}),
     Sub("random", oracle, strategy=lambda tier: CASE, nontrivial=lambda c: bool(_last.get("nt")), classes=classes, render=render,
         n={"quick": 400, "thorough": 5000}, shards={"quick": 8, "thorough": 16},
-        essential=("writer=tracts_to_csv", "writer=TractWriter", "writer=records", "headers=list", "headers=dict", "mode=a", "existing", "unknown_attribute", "nontrivial")),
+        essential=("writer=tracts_to_csv", "writer=TractWriter", "writer=records", "headers=list", "headers=dict", "mode=a", "existing", "unknown_attribute", "reopened", "nontrivial")),
 ]
